@@ -6,7 +6,9 @@ SPEC = dict(
                'after dividing by the total when the total is requested, to raise ZeroDivisionError exactly for a non-empty pattern of total '
                'zero; and from that, by induction on the number of peaks carried out inside the run (base and step are obligations): in sum '
                'mode the total of the result EQUALS the requested abundance, in peak mode a pattern whose largest peak is 1 gets the requested '
-               'abundance as its largest peak and no larger one. BOUNDED (labelled) on the real isotopic_distribution / merge_isotopic_distributions against an exact multinomial expansion '
+               'abundance as its largest peak and no larger one; merge_isotopic_distributions is proved to return the patterns\' peaks merged by '
+               '(rounded) mass -- sorted, each mass once, the abundance at a mass being the total over ALL peaks of ALL arguments at that mass, '
+               'no mass without a peak and no peak without its mass (two nested loop invariants over the counting folds INN / OUT). BOUNDED (labelled) on the real isotopic_distribution / merge_isotopic_distributions against an exact multinomial expansion '
                'computed from the independent NIST isotope table: patterns are sorted by mass; the largest peak (or on request the total) '
                'equals the requested abundance; with no pruning the lightest peak sits at the monoisotopic mass incl. e/p/n entries and the '
                'abundance-weighted mean equals the average mass; the neutron-offset view is the mass view binned by nominal mass; peaks '
@@ -20,7 +22,8 @@ SPEC = dict(
     bounded=[dict(name='C14-bounded', script='bounded/C14.py')],
     replay_finder='bounded/C14.py',
     explanation='normalisation step proved; convolution / centring / completeness bounded',
-    proved_clauses=['scaling: total == requested abundance (sum mode); largest peak == requested abundance for a pattern normalised to 1 (peak mode); masses kept'],
+    proved_clauses=['merging adds abundances at equal masses (every argument, every peak), sorted, nothing lost, nothing invented',
+                    'scaling: total == requested abundance (sum mode); largest peak == requested abundance for a pattern normalised to 1 (peak mode); masses kept'],
     bounded_clauses=['sorted; the pattern handed to the scaling step is normalised to its largest peak', 'lightest peak and mean (no pruning)', 'neutron view', 'exact multinomial for <= 12 atoms', 'merge'],
     uncovered_clauses=['multinomial exactness above 12 atoms'], assumptions=['A-REAL', 'SPEC-FOLD', 'LC-ROUND', 'oracle isotope table typed in from NIST'], trusted_base=['z3 5.1', 'cvc5 1.0.3', 'pyvc', 'bounded/C14.py', 'specs/nist.py'],
 )
